@@ -3,6 +3,7 @@ pub mod c18;
 pub mod c19;
 pub mod child;
 pub mod egprops;
+pub mod meta;
 pub mod c05;
 pub mod c07;
 pub mod c10;
@@ -13,7 +14,11 @@ pub mod c17;
 pub fn run(prop: &str, ctx: &Ctx) -> Option<Report> {
     Some(match prop {
         "C01" => egprops::run_c01(ctx),
+        "C03" => meta::run_c03(ctx),
         "C04" => egprops::run_c04(ctx),
+        "C06" => meta::run_c06(ctx),
+        "C08" => meta::run_c08(ctx),
+        "C20" => meta::run_c20(ctx),
         "C13" => egprops::run_c13(ctx),
         "C05" => c05::run(ctx),
         "C07" => c07::run(ctx),
